@@ -40,7 +40,7 @@ def parseKind (ws : List String) : Option Kind :=
   | ["r", "exc", c] => c.toNat?.map (fun c => Kind.res (RK.exc c))
   | ["r", "drop"] => some (Kind.res RK.drop)
   | ["r", "throwv"] => some (Kind.res RK.drop)   -- value construction throws after the claim: the future is resolved without a value
-  | ["d"] => some Kind.dtor
+  | ["d"] => some Kind.dtor            -- replaced by `Kind.ddef v` when the promise object is a promise_with_default (`pwd` line)
   | ["w", "coro"] => some (Kind.wait WK.coro)
   | ["w", "sync"] => some (Kind.wait WK.sync)
   | ["w", "cb"] => some (Kind.wait WK.cb)
@@ -72,13 +72,29 @@ partial def runSched (c : Cfg) (isVoid : Bool) (s : State) (sched : List Nat) (a
 def runCase (hdr : List String) (body : List (List String)) : List String := Id.run do
   let tyName := hdr[3]?.getD "int"
   let isVoid := tyName == "void"
-  let kinds := body.filterMap parseKind
+  -- `pwd <variant> <v>`: the promise object is a promise_with_default (`def`), _v (`defv`) or _vp (`defvp`) with default v
+  let pwd : Option Nat := (body.find? (fun w => w.head? == some "pwd")).bind (fun w => (w[2]?.getD "").toNat?)
+  let dk : Kind := match pwd with
+    | some v => Kind.ddef v
+    | none => Kind.dtor
+  let kinds := (body.filterMap parseKind).map (fun k => if k == Kind.dtor then dk else k)
+  -- how the controller ends the promise's life when no `d` thread does:
+  --   default: destroys it; `assign-end`: move-assigns an empty promise over it (drops the future, no default);
+  --   `assign-from <va>`: move-assigns it into an empty promise_with_default with default va and destroys that one
+  let assignEnd := body.any (fun w => w.head? == some "assign-end")
+  let assignFrom : Option Nat := (body.find? (fun w => w.head? == some "assign-from")).bind (fun w => (w[1]?.getD "").toNat?)
+  let endKind : Kind :=
+    if assignEnd then Kind.dtor else
+    match pwd, assignFrom with
+    | some v, some va => Kind.ddef (assignedDefault va v)
+    | some v, none => Kind.ddef v
+    | none, _ => Kind.dtor
   let sched := (body.filter (fun w => w.head? == some "sched")).flatMap (fun w => (w.drop 1).filterMap String.toNat?)
   let n := kinds.length
-  let hasD := kinds.any (· == Kind.dtor)
+  let hasD := kinds.any (· == dk)
   -- one extra (unscheduled) destructor agent at index n for the controller's post-run destruction
   let karr := kinds.toArray
-  let cfg : Cfg := { n := n, kind := fun i => if i = n then Kind.dtor else karr[i]?.getD Kind.dtor }
+  let cfg : Cfg := { n := n, kind := fun i => if i = n then endKind else karr[i]?.getD Kind.dtor }
   let s0 := init { cfg with n := n + 1 }
   let s0 := if hasD then setPc s0 n Pc.done else s0
   let throwers := (body.filter (fun w => w.head? == some "r" || w.head? == some "w" || w.head? == some "d")).zipIdx.filterMap
